@@ -332,11 +332,12 @@ func writeEvidence(verif, prop, tier string, seed int, ps *PropSpec, results []*
 			picked++
 		}
 	}
-	var fnsContract, fnsInlined, fnsOutside, assumed []string
+	var fnsContract, fnsInlined, fnsOutside, assumed, loops []string
 	seenA := map[string]bool{}
 	seenI := map[string]bool{}
 	for _, r := range results {
 		fnsContract = append(fnsContract, r.Spec.Fn)
+		loops = append(loops, r.Loops...)
 		if r.Unsupported != "" {
 			fnsOutside = append(fnsOutside, r.Spec.Fn+": "+trunc(r.Unsupported, 200))
 		}
@@ -377,7 +378,7 @@ func writeEvidence(verif, prop, tier string, seed int, ps *PropSpec, results []*
 			"samples":      samples,
 			"by_kind":      byKind, "by_solver": bySolver, "solver_time_s": solverTime,
 			"functions_under_contract": fnsContract, "functions_inlined": fnsInlined, "functions_outside_subset": fnsOutside,
-			"vacuity_guards": reach, "known_findings_hit": knownHit, "bounded": bounded,
+			"loops": loops, "vacuity_guards": reach, "known_findings_hit": knownHit, "bounded": bounded,
 			"slow_obligations": slow, "houdini_side_queries": eng.sideQueries,
 			"contract_files": eng.specs.Files,
 			"explanation":    "obligations are generated from /repo's current SSA and the //@ contracts; discharged = solver answered unsat for the negated obligation; obligations listed under known_findings_hit are excluded from both counts",
